@@ -809,6 +809,29 @@ func execVars(spec string, parts []string) (res engine.Result) {
 				kind := demandKind(o.inity)
 				fail(sig("inittable-y", kind), fmt.Sprintf("%s: (make-instance 'f%d :y 98) gives y=%s; a flavor in precedence declares (:inittable-instance-variables y)", where, f, o.inity))
 			}
+			// init keywords are inherited (model-free): a keyword that make-instance accepts for a component, and that
+			// sets the variable there, is accepted for every flavor built on that component and sets the variable too -
+			// whatever rule made it acceptable for the component (a declaration, or slip's "no declaration: every own variable")
+			for _, g := range prec {
+				if g == f {
+					continue
+				}
+				og := h.obs[g]
+				if og.instanceErr != "" {
+					continue
+				}
+				if og.initx == "99" && o.initx != "99" && !e.xInittable {
+					res.Hit("keyword-of-a-component-without-declaration")
+					fail(sig("inherited-init-keyword-x", demandKind(o.initx)), fmt.Sprintf("%s: (make-instance 'f%d :x 99) sets x, (make-instance 'f%d :x 99) gives x=%s although f%d is a component", where, g, f, o.initx, g))
+				}
+				if og.inity == "98" && o.inity != "98" && !e.yInittable {
+					res.Hit("keyword-of-a-component-without-declaration")
+					fail(sig("inherited-init-keyword-y", demandKind(o.inity)), fmt.Sprintf("%s: (make-instance 'f%d :y 98) sets y, (make-instance 'f%d :y 98) gives y=%s although f%d is a component", where, g, f, o.inity, g))
+				}
+				if og.initx == "99" || og.inity == "98" {
+					res.Hit("keyword-accepted-by-a-component")
+				}
+			}
 		}
 	}
 	res.Outcome = strings.Join(outcome, ";")
